@@ -816,9 +816,9 @@ def st_over_value(kind):
     if kind == "res_id_neg":
         return st.sampled_from([-1000, -1001, -1002, -9999, -10000])
     if kind == "atom_id_h36_max":
-        return st.sampled_from([h36_max(5) + 1, h36_max(5) + 2, h36_max(5) + 3, 10**8, 2 * 10**9])
+        return st.sampled_from([h36_max(5) + 1, h36_max(5) + 2, h36_max(5) + 3, 10**8, 2 * 10**9, 2**31, 2**31 + 5, 2**32 + 57, 2**32 + 100001])
     if kind == "res_id_h36_max":
-        return st.sampled_from([h36_max(4) + 1, h36_max(4) + 2, h36_max(4) + 3, 10**7, 2 * 10**9])
+        return st.sampled_from([h36_max(4) + 1, h36_max(4) + 2, h36_max(4) + 3, 10**7, 2 * 10**9, 2**31, 2**31 + 5, 2**32 + 57, 2**32 + 10001])
     if kind in ("atom_id_h36_neg", "res_id_h36_neg"):
         return st.sampled_from([-1, -2, -9, -10, -999, -1000])
     if kind == "chain_len":
@@ -932,6 +932,13 @@ def run_overlimit(case):
     try:
         f, lines, warns = write_pdb(arr, bad["hybrid36"], bad.get("via_convert", False))
     except (BadStructureError, ValueError) as e:
+        o.label("refused:" + type(e).__name__)
+        o.mark_nontrivial(True)
+        return o
+    except OverflowError as e:
+        # an id that does not fit the C integer of the hybrid-36 encoder: also "refused with an error"
+        if not (kind in ("atom_id_h36_max", "res_id_h36_max") and abs(case["inject"]["value"]) > INT32_MAX):
+            raise
         o.label("refused:" + type(e).__name__)
         o.mark_nontrivial(True)
         return o
@@ -1349,6 +1356,11 @@ def h36_boundaries(length):
             for p in range(0, length - 1):
                 for d in (10, 35, 36):
                     pts.add(base + d * 36**p - (1 if d == 36 else 0))
+    # beyond the C integer widths: must be refused, never taken modulo 2**32 or 2**64
+    for w in (2**31, 2**32, 2**63, 2**64):
+        for extra in (0, 57, 10 ** (length - 1), top):
+            pts.add(w + extra)
+            pts.add(-w - extra)
     out = set()
     for p in pts:
         for d in range(-3, 4):
